@@ -46,6 +46,7 @@ type released struct {
 	sign   []byte
 	sig    []byte
 	ts     time.Time
+	life   int
 	// decoded, for the gossip stub
 	vote *types.Vote
 	prop *types.Proposal
@@ -224,6 +225,9 @@ type node struct {
 	lastWalImage     []byte
 	lastWalImageTorn bool
 	lastCrashPower   bool
+	walFragment      bool  // a power-loss image left a torn line inside the WAL's current height
+	walFragmentH     int64
+	walFragmentPower bool
 	downSince    time.Duration
 	halted   bool // stopped for good after a (suppressed) CONSENSUS FAILURE
 	started  bool // receiveRoutine was launched (cs.Wait() is safe)
@@ -235,6 +239,7 @@ type node struct {
 
 	// signer log across lives (C34)
 	signed   map[string]released
+	noReplay map[int64]string // heights this node restarted into without getting its fsynced own votes back (why)
 	ownAdded map[[3]int64]*types.Vote // own votes the node reported as added (WAL-synced), for the C33 replay check
 
 	// simulator-side model of the timeout ticker
@@ -271,6 +276,7 @@ func (n *node) onSchedule(st cons.SimTimeout) {
 }
 
 func (n *node) onReleased(r released) {
+	r.life = n.life
 	n.mu.Lock()
 	n.obs = append(n.obs, obs{rel: &r})
 	n.mu.Unlock()
